@@ -1358,7 +1358,9 @@ impl std::fmt::Display for ArithExpr {
         match self {
             ArithExpr::Variable(name) => write!(f, "{name}"),
             ArithExpr::Constant(val) => write!(f, "{val}"),
-            ArithExpr::FloatConstant(bits) => write!(f, "{}", f64::from_bits(*bits)),
+            // `{:?}` keeps the decimal point / exponent (2.0, 1e30, -0.0), so the text parses
+            // back as the same float; `{}` prints 2.0 as `2`, which re-parses as an integer
+            ArithExpr::FloatConstant(bits) => write!(f, "{:?}", f64::from_bits(*bits)),
             ArithExpr::Binary { op, left, right } => {
                 let parent_prec = op.precedence();
 
@@ -1476,7 +1478,7 @@ impl std::fmt::Display for Term {
             Term::Constant(val) => write!(f, "{val}"),
             Term::StringConstant(s) => write!(f, "\"{s}\""),
             Term::BoolConstant(b) => write!(f, "{b}"),
-            Term::FloatConstant(val) => write!(f, "{val}"),
+            Term::FloatConstant(val) => write!(f, "{val:?}"),
             Term::Placeholder => write!(f, "_"),
             Term::Arithmetic(expr) => write!(f, "{expr}"),
             Term::Aggregate(func, var) => {
